@@ -116,6 +116,7 @@ def get_conf() -> dict:
 
 def _gcolor(mix: float):
     """Calculate heat color from mix value (0-1)"""
+    mix = min(max(mix, 0.0), 1.0)
     c1 = np.array(mpl.colors.to_rgb(_COLD_RGB))
     c2 = np.array(mpl.colors.to_rgb(_WARM_RGB))
     return mpl.colors.to_hex((1 - mix) * c1 + mix * c2)
